@@ -72,16 +72,15 @@ impl InstructionIR {
     }
 
     /// Private method to generates QASM string and comment string for control qubits.
-    fn generate_control_qasm_strings(controls: &[usize]) -> (String, String) {
+    // Returns (modifier `ctrl(n) @ `, the control operands `q[c0], q[c1], ` that lead the operand list, comment)
+    fn generate_control_qasm_strings(controls: &[usize]) -> (String, String, String) {
         if controls.is_empty() {
-            (String::new(), String::new())
+            (String::new(), String::new(), String::new())
         } else {
-            let mut ctrl_qasm_str = format!("ctrl({}) @ ", controls.len());
-            for (i, c) in controls.iter().enumerate() {
-                if i > 0 {
-                    ctrl_qasm_str.push_str(", ");
-                }
-                ctrl_qasm_str.push_str(&format!("q[{}]", c));
+            let ctrl_qasm_str = format!("ctrl({}) @ ", controls.len());
+            let mut ctrl_operands_str = String::new();
+            for c in controls.iter() {
+                ctrl_operands_str.push_str(&format!("q[{}], ", c));
             }
 
             let mut ctrl_comment_str = "with control qubits: ".to_string();
@@ -92,7 +91,7 @@ impl InstructionIR {
                 ctrl_comment_str.push_str(&c.to_string());
             }
 
-            (ctrl_qasm_str, ctrl_comment_str)
+            (ctrl_qasm_str, ctrl_operands_str, ctrl_comment_str)
         }
     }
 
@@ -112,153 +111,153 @@ impl InstructionIR {
 
             // Handle gates
             InstructionIR::Hadamard(index, controls) => {
-                let (ctrl_qasm_str, ctrl_comment_str) =
+                let (ctrl_qasm_str, ctrl_operands_str, ctrl_comment_str) =
                     Self::generate_control_qasm_strings(controls);
 
                 qasm_instructions.push(QasmInstruction::GateDeclaration(format!(
-                    "{} h q[{}]; // {} {} {}",
-                    ctrl_qasm_str, index, "Hadamard gate on qubit", index, ctrl_comment_str
+                    "{}h {}q[{}]; // {} {} {}",
+                    ctrl_qasm_str, ctrl_operands_str, index, "Hadamard gate on qubit", index, ctrl_comment_str
                 )));
             }
 
             InstructionIR::PauliX(index, controls) => {
-                let (ctrl_qasm_str, ctrl_comment_str) =
+                let (ctrl_qasm_str, ctrl_operands_str, ctrl_comment_str) =
                     Self::generate_control_qasm_strings(controls);
                 
                 qasm_instructions.push(QasmInstruction::GateDeclaration(format!(
-                    "{} x q[{}]; // {} {} {}",
-                    ctrl_qasm_str, index, "Pauli-X gate on qubit", index, ctrl_comment_str
+                    "{}x {}q[{}]; // {} {} {}",
+                    ctrl_qasm_str, ctrl_operands_str, index, "Pauli-X gate on qubit", index, ctrl_comment_str
                 )));
             },
 
             InstructionIR::PauliY(index, controls) => {
-                let (ctrl_qasm_str, ctrl_comment_str) =
+                let (ctrl_qasm_str, ctrl_operands_str, ctrl_comment_str) =
                     Self::generate_control_qasm_strings(controls);
                 
                 qasm_instructions.push(QasmInstruction::GateDeclaration(format!(
-                    "{} y q[{}]; // {} {} {}",
-                    ctrl_qasm_str, index, "Pauli-Y gate on qubit", index, ctrl_comment_str
+                    "{}y {}q[{}]; // {} {} {}",
+                    ctrl_qasm_str, ctrl_operands_str, index, "Pauli-Y gate on qubit", index, ctrl_comment_str
                 )));
             },
 
             InstructionIR::PauliZ(index, controls) => {
-                let (ctrl_qasm_str, ctrl_comment_str) =
+                let (ctrl_qasm_str, ctrl_operands_str, ctrl_comment_str) =
                     Self::generate_control_qasm_strings(controls);
                 
                 qasm_instructions.push(QasmInstruction::GateDeclaration(format!(
-                    "{} z q[{}]; // {} {} {}",
-                    ctrl_qasm_str, index, "Pauli-Z gate on qubit", index, ctrl_comment_str
+                    "{}z {}q[{}]; // {} {} {}",
+                    ctrl_qasm_str, ctrl_operands_str, index, "Pauli-Z gate on qubit", index, ctrl_comment_str
                 )));
             },
 
             InstructionIR::S(index, controls) => {
-                let (ctrl_qasm_str, ctrl_comment_str) =
+                let (ctrl_qasm_str, ctrl_operands_str, ctrl_comment_str) =
                     Self::generate_control_qasm_strings(controls);
                 
                 qasm_instructions.push(QasmInstruction::GateDeclaration(format!(
-                    "{} s q[{}]; // {} {} {}",
-                    ctrl_qasm_str, index, "Phase S gate on qubit", index, ctrl_comment_str
+                    "{}s {}q[{}]; // {} {} {}",
+                    ctrl_qasm_str, ctrl_operands_str, index, "Phase S gate on qubit", index, ctrl_comment_str
                 )));
             },
 
             InstructionIR::T(index, controls) => {
-                let (ctrl_qasm_str, ctrl_comment_str) =
+                let (ctrl_qasm_str, ctrl_operands_str, ctrl_comment_str) =
                     Self::generate_control_qasm_strings(controls);
                 
                 qasm_instructions.push(QasmInstruction::GateDeclaration(format!(
-                    "{} t q[{}]; // {} {} {}",
-                    ctrl_qasm_str, index, "Phase T gate on qubit", index, ctrl_comment_str
+                    "{}t {}q[{}]; // {} {} {}",
+                    ctrl_qasm_str, ctrl_operands_str, index, "Phase T gate on qubit", index, ctrl_comment_str
                 )));
             },
 
             InstructionIR::Sdg(index, controls) => {
-                let (ctrl_qasm_str, ctrl_comment_str) =
+                let (ctrl_qasm_str, ctrl_operands_str, ctrl_comment_str) =
                     Self::generate_control_qasm_strings(controls);
                 
                 qasm_instructions.push(QasmInstruction::GateDeclaration(format!(
-                    "{} sdg q[{}]; // {} {} {}",
-                    ctrl_qasm_str, index, "Phase S-dagger gate on qubit", index, ctrl_comment_str
+                    "{}sdg {}q[{}]; // {} {} {}",
+                    ctrl_qasm_str, ctrl_operands_str, index, "Phase S-dagger gate on qubit", index, ctrl_comment_str
                 )));
             },
 
             InstructionIR::Tdg(index, controls) => {
-                let (ctrl_qasm_str, ctrl_comment_str) =
+                let (ctrl_qasm_str, ctrl_operands_str, ctrl_comment_str) =
                     Self::generate_control_qasm_strings(controls);
                 
                 qasm_instructions.push(QasmInstruction::GateDeclaration(format!(
-                    "{} tdg q[{}]; // {} {} {}",
-                    ctrl_qasm_str, index, "Phase T-dagger gate on qubit", index, ctrl_comment_str
+                    "{}tdg {}q[{}]; // {} {} {}",
+                    ctrl_qasm_str, ctrl_operands_str, index, "Phase T-dagger gate on qubit", index, ctrl_comment_str
                 )));
             },
 
             InstructionIR::Phase(angle, index, controls) => {
-                let (ctrl_qasm_str, ctrl_comment_str) =
+                let (ctrl_qasm_str, ctrl_operands_str, ctrl_comment_str) =
                     Self::generate_control_qasm_strings(controls);
                 
                 
                 qasm_instructions.push(QasmInstruction::GateDeclaration(format!(
-                    "{} p({}) q[{}]; // {} {} {} {} {}",
-                    ctrl_qasm_str, angle, index,
+                    "{}p({}) {}q[{}]; // {} {} {} {} {}",
+                    ctrl_qasm_str, angle, ctrl_operands_str, index,
                     "Phase gate with angle", angle, "on qubit", index, ctrl_comment_str
                 )));
             },
 
             InstructionIR::Rx(angle, index, controls) => {
-                let (ctrl_qasm_str, ctrl_comment_str) =
+                let (ctrl_qasm_str, ctrl_operands_str, ctrl_comment_str) =
                     Self::generate_control_qasm_strings(controls);
                 
                 qasm_instructions.push(QasmInstruction::GateDeclaration(format!(
-                    "{} rx({}) q[{}]; // {} {} {} {} {}",
-                    ctrl_qasm_str, angle, index,
+                    "{}rx({}) {}q[{}]; // {} {} {} {} {}",
+                    ctrl_qasm_str, angle, ctrl_operands_str, index,
                     "Rotate-X gate with angle", angle, "on qubit", index, ctrl_comment_str
                 )));
             },
 
             InstructionIR::Ry(angle, index, controls) => {
-                let (ctrl_qasm_str, ctrl_comment_str) =
+                let (ctrl_qasm_str, ctrl_operands_str, ctrl_comment_str) =
                     Self::generate_control_qasm_strings(controls);
                 
                 qasm_instructions.push(QasmInstruction::GateDeclaration(format!(
-                    "{} ry({}) q[{}]; // {} {} {} {} {}",
-                    ctrl_qasm_str, angle, index,
+                    "{}ry({}) {}q[{}]; // {} {} {} {} {}",
+                    ctrl_qasm_str, angle, ctrl_operands_str, index,
                     "Rotate-Y gate with angle", angle, "on qubit", index, ctrl_comment_str
                 )));
             },
 
             InstructionIR::Rz(angle, index, controls) => {
-                let (ctrl_qasm_str, ctrl_comment_str) =
+                let (ctrl_qasm_str, ctrl_operands_str, ctrl_comment_str) =
                     Self::generate_control_qasm_strings(controls);
                 
                 qasm_instructions.push(QasmInstruction::GateDeclaration(format!(
-                    "{} rz({}) q[{}]; // {} {} {} {} {}",
-                    ctrl_qasm_str, angle, index,
+                    "{}rz({}) {}q[{}]; // {} {} {} {} {}",
+                    ctrl_qasm_str, angle, ctrl_operands_str, index,
                     "Rotate-Z gate with angle", angle, "on qubit", index, ctrl_comment_str
                 )));
             },
 
             InstructionIR::Id(index, controls) => {
-                let (ctrl_qasm_str, ctrl_comment_str) =
+                let (ctrl_qasm_str, ctrl_operands_str, ctrl_comment_str) =
                     Self::generate_control_qasm_strings(controls);
                 
                 qasm_instructions.push(QasmInstruction::GateDeclaration(format!(
-                    "{} id q[{}]; // {} {} {}",
-                    ctrl_qasm_str, index, "Identity gate on qubit", index, ctrl_comment_str
+                    "{}id {}q[{}]; // {} {} {}",
+                    ctrl_qasm_str, ctrl_operands_str, index, "Identity gate on qubit", index, ctrl_comment_str
                 )));
             },
 
             InstructionIR::Swap(index1, index2, controls) => {
-                let (ctrl_qasm_str, ctrl_comment_str) =
+                let (ctrl_qasm_str, ctrl_operands_str, ctrl_comment_str) =
                     Self::generate_control_qasm_strings(controls);
                 
                 qasm_instructions.push(QasmInstruction::GateDeclaration(format!(
-                    "{} swap q[{}], q[{}]; // {} {} {} {} {}",
-                    ctrl_qasm_str, index1, index2,
+                    "{}swap {}q[{}], q[{}]; // {} {} {} {} {}",
+                    ctrl_qasm_str, ctrl_operands_str, index1, index2,
                     "SWAP gate between qubits", index1, "and", index2, ctrl_comment_str
                 )));
             },
 
             InstructionIR::Unitary(matrix_val, target_idx, controls_vec) => {
-                let (ctrl_qasm_str, ctrl_comment_str) =
+                let (ctrl_qasm_str, ctrl_operands_str, ctrl_comment_str) =
                     Self::generate_control_qasm_strings(controls_vec);
 
                 let a: Complex<f64> = matrix_val[0][0];
@@ -310,8 +309,8 @@ impl InstructionIR {
                 };
 
                 qasm_instructions.push(QasmInstruction::GateDeclaration(format!(
-                    "{} U({:.3},{:.3},{:.3}) q[{}]; // {}",
-                    ctrl_qasm_str, theta, phi, lambda, target_idx, full_comment
+                    "{}U({:.3},{:.3},{:.3}) {}q[{}]; // {}",
+                    ctrl_qasm_str, theta, phi, lambda, ctrl_operands_str, target_idx, full_comment
                 )));
             }
 
